@@ -68,11 +68,10 @@ def fam_point_at(ctx, rng):
     if not on_curve_fraction(k, c, pt, t, scale_of(c)):
         inv = ':inverted' if k.startswith('arc') and c.a2 < c.a1 else ''
         ctx.violation('point_at:%s%s' % (k, inv), 'point_at(%r)=%r is not at arc-length fraction t' % (t, pt), desc)
-    if k.startswith('seg'):
-        L = c.length
-        pl = c.point_at_length(L * t)
-        if dist(tuple(pl), tuple(pt)) > 1e-9 * scale_of(c):
-            ctx.violation('point_at_length:%s' % k, 'point_at_length(L*t) differs from point_at(t)', desc)
+    L = c.length
+    pl = c.point_at_length(L * t)
+    if dist(tuple(pl), tuple(pt)) > 1e-9 * scale_of(c) or not on_curve_fraction(k, c, pl, t, 10 * scale_of(c)):
+        ctx.violation('point_at_length:%s' % k, 'point_at_length(L*t)=%r is not the point at arc-length fraction t=%r (point_at gives %r)' % (pl, t, pt), desc)
 
 
 def fam_evenly(ctx, rng, n=None):
@@ -97,6 +96,15 @@ def fam_evenly(ctx, rng, n=None):
         for v in pl.vertices:
             if abs(dist(tuple(v), ctr) - r) > 1e-9 * sc:
                 ctx.violation('to_polyline:%s:off_arc' % k, 'polyline vertex %r is not on the arc' % (v,), desc); return
+        # asked again on the same arc with other division counts (and the other flag): each answer has its own count, evenly spaced
+        for n2, interp in ((rng.choice([2, 3, 4, 6, 12, 30]), False), (n, True), (rng.choice([2, 5, 8, 16]), True), (n, False)):
+            pl2 = c.to_polyline(n2, interp)
+            if len(pl2.vertices) != n2 + 1 or pl2.interpolated is not interp:
+                ctx.violation('to_polyline:%s:repeated' % k, 'after to_polyline(%d), to_polyline(%d, %r) on the same arc has %d segments, interpolated=%r' % (
+                    n, n2, interp, len(pl2.vertices) - 1, pl2.interpolated), dict(desc, n2=n2)); return
+            for i, v in enumerate(pl2.vertices):
+                if dist(tuple(v), tuple(c.point_at(min(1.0, i / n2)))) > 1e-7 * sc:
+                    ctx.violation('to_polyline:%s:repeated' % k, 'to_polyline(%d) vertex %d is not at fraction %d/%d' % (n2, i, i, n2), dict(desc, n2=n2)); return
 
 
 def fam_subdivide(ctx, rng):
